@@ -169,6 +169,7 @@ pub fn start_states_active(r: usize, active: usize, depth: usize, updates: Vec<(
         deadline: None,
         max_found: 1,
         first_depth: depth,
+        tolerate: vec![],
     };
     let _ = state::explore(&c, &cfg);
     let mut v = c.states.into_inner().unwrap();
